@@ -149,6 +149,95 @@ fn run_large(rep: &mut Report, rng: &mut Rng) {
     }
 }
 
+/// Calls the writer refuses are not part of the input: a channel-writer history in which refused
+/// calls (wrong channel count, channels of unequal length - the first ones non-empty) are mixed
+/// between the accepted ones must finish with the same file as the accepted calls alone.
+fn run_rejected(rep: &mut Report, rng: &mut Rng) {
+    use flac_codec::encode::FlacChannelWriter;
+    let mut cfg = EncCfg::random(rng);
+    cfg.channels = rng.usize(2, 8) as u8;
+    cfg.block_size = *rng.pick(&[16u16, 64, 192, 256]);
+    cfg.extras = 0;
+    let ch = cfg.channels as usize;
+    let frames = cfg.block_size as usize * rng.usize(0, 3) + rng.usize(1, cfg.block_size as usize);
+    let mut r2 = Rng::new(rng.next());
+    let pcm = flacref::pcm::generate(*rng.pick(&[Signal::NoiseLow, Signal::PositionCoded, Signal::Sine, Signal::SmoothRandomWalk]), ch, cfg.bps, frames, &mut r2);
+    rep.case_begin(&format!("refused calls between accepted ones {cfg:?} frames {frames}"));
+    let Ok(reference) = enc_split(&cfg, Front::Channel, &pcm, &[]) else { return };
+    // plan: (accepted chunk length, kind of refused call made before it: 0 none)
+    let mut plan: Vec<(usize, u8)> = vec![];
+    let mut left = frames;
+    while left > 0 {
+        let s = rng.usize(1, left.min(cfg.block_size as usize * 2));
+        plan.push((s, if rng.chance(1, 2) { rng.usize(1, 4) as u8 } else { 0 }));
+        left -= s;
+    }
+    rep.eval();
+    rep.count("refused_call_histories", "channel writer");
+    let replay = J::obj().set("scenario", "refused-calls").set("cfg", cfg.to_json()).set("pcm", pcm_json(&pcm)).set("plan", format!("{plan:?}"));
+    let chans = flacref::dec::deinterleave(&pcm, ch);
+    let obs = mon::observe(|| -> Result<(Vec<u8>, usize, usize), String> {
+        let opts = make_options(&cfg)?;
+        let mut c = std::io::Cursor::new(Vec::new());
+        let total = cfg.declare_total.then_some(frames as u64);
+        let mut wr = FlacChannelWriter::new(&mut c, opts, cfg.rate, cfg.bps, cfg.channels, total).map_err(|e| crate::api::show(&e))?;
+        let (mut pos, mut refused, mut accepted_bad) = (0usize, 0usize, 0usize);
+        for (s, bad) in &plan {
+            let end = pos + s;
+            if *bad != 0 {
+                let mut part: Vec<&[i32]> = chans.iter().map(|c| &c[pos..end]).collect();
+                match bad {
+                    1 => {
+                        let last = part.len() - 1;
+                        part[last] = &part[last][..s - 1]; // last channel one short
+                    }
+                    2 => {
+                        part[0] = &part[0][..s - 1]; // first channel one short (may be empty)
+                    }
+                    3 => {
+                        part.pop(); // a channel missing
+                    }
+                    _ => {
+                        let extra = part[0];
+                        part.push(extra); // a channel too many
+                    }
+                }
+                match wr.write(&part) {
+                    Err(_) => refused += 1,
+                    Ok(()) => accepted_bad += 1,
+                }
+            }
+            let part: Vec<&[i32]> = chans.iter().map(|c| &c[pos..end]).collect();
+            wr.write(&part).map_err(|e| format!("accepted call failed: {}", crate::api::show(&e)))?;
+            pos = end;
+        }
+        wr.finalize().map_err(|e| format!("finalize failed: {}", crate::api::show(&e)))?;
+        Ok((c.into_inner(), refused, accepted_bad))
+    });
+    rep.observe_cost(obs.cpu_us, obs.peak_alloc);
+    match obs.result {
+        Err(p) => rep.violation("panic", p.signature(), format!("channel writer used on after refused calls: {} at {}", p.msg, p.location), replay),
+        Ok(Err(e)) => rep.violation("encode-error", format!("after-refused-call:{}", e.split(':').next().unwrap_or("")), format!("plan {:?}: {e}", &plan[..plan.len().min(8)]), replay),
+        Ok(Ok((b, refused, accepted_bad))) => {
+            rep.count("refused_calls", refused.min(9));
+            if accepted_bad > 0 {
+                // an ill-formed call that is accepted changes the input; nothing to compare (C15's business)
+                rep.count("ill_formed_call_accepted", accepted_bad.min(9));
+            } else if b != reference {
+                let at = b.iter().zip(&reference).position(|(x, y)| x != y);
+                rep.violation(
+                    "nondeterministic",
+                    "output-differs:Channel:after-refused-call",
+                    format!("{refused} refused call(s) between the accepted ones changed the file: {} bytes vs {} for the accepted calls alone, first difference at byte {at:?}; plan {:?}", b.len(), reference.len(), &plan[..plan.len().min(8)]),
+                    replay,
+                );
+            } else if refused > 0 {
+                rep.nontrivial(fnv(&reference) ^ hash_str(&format!("refused{plan:?}")));
+            }
+        }
+    }
+}
+
 /// A trailing partial PCM frame is dropped: same file as for the truncated input.
 fn run_partial(rep: &mut Report, rng: &mut Rng) {
     let mut cfg = small_cfg(rng);
@@ -266,6 +355,9 @@ pub fn run(ctx: &Ctx, rep: &mut Report) {
             _ => {
                 for _ in 0..6 {
                     run_partial(rep, &mut rng);
+                }
+                for _ in 0..3 {
+                    run_rejected(rep, &mut rng);
                 }
             }
         }
